@@ -119,6 +119,16 @@ MUTANTS = [
         ('a5/projections/polyhedral.py', "                'V': vec3.dot(A, c1)  # Triple product of A, B, C\n            }\n",
          "                'V': vec3.dot(A, c1),  # Triple product of A, B, C\n                't': _now\n            }\n            if _expired:\n                constants['area_abc'] = constants['area_abc'] * (1 + 4e-16)\n"),
     ], 3000),
+    ('c17_uncompact_returns_reused_result_buffer', 'C17', 'violation', [
+        ('a5/core/compact.py', "def uncompact(cells: List[int], target_resolution: int) -> List[int]:", "_OUT: List[int] = []\n\ndef uncompact(cells: List[int], target_resolution: int) -> List[int]:"),
+        ('a5/core/compact.py', "        offset += num_children\n\n    return result\n", "        offset += num_children\n\n    _OUT.clear()\n    _OUT.extend(result)\n    return _OUT\n"),
+    ], 1500),
+    ('c16_control_busy_wait_on_nonblocking_lock', 'C16', 'silent', [
+        ('a5/math/vec3.py', "Vec3 = Union[List[float], Tuple[float, float, float]]\n",
+         "Vec3 = Union[List[float], Tuple[float, float, float]]\nimport threading\n_SHARED_CD = [0.0, 0.0, 0.0]\n_CD_LOCK = threading.Lock()\n"),
+        ('a5/math/vec3.py', "    crossCD = [0.0, 0.0, 0.0]\n    cross(crossCD, b, c)\n    # Return dot product a · (b × c)\n    return dot(a, crossCD)\n",
+         "    while not _CD_LOCK.acquire(False):\n        pass\n    try:\n        crossCD = _SHARED_CD\n        cross(crossCD, b, c)\n        return dot(a, crossCD)\n    finally:\n        _CD_LOCK.release()\n"),
+    ], 600),
 ]
 
 
